@@ -1179,7 +1179,7 @@ impl Check for C19 {
         "C19"
     }
     fn plan(&self, tier: Tier) -> Plan {
-        Plan { cases: if tier == Tier::Quick { 20_000 } else { 500_000 }, max_len: 512 }
+        Plan { cases: if tier == Tier::Quick { 1_000_000 } else { 20_000_000 }, max_len: 512 }
     }
     fn rule(&self) -> String {
         format!(
